@@ -40,7 +40,6 @@ RULE = ("per case: one operator (uniform over the catalogue), parameters aimed a
 ASSUMPTIONS = [
     "single-threaded / virtual-time execution; source = one hot observable (the property quantifies over finite timelines)",
     "downstream observer callbacks return normally (raising subscribers are C01/C09's subject)",
-    "distinct: the comparer does not raise (a raising comparer escapes to the emitter on the pinned tree: C09's defect); key mappers may raise",
     "dematerialize: every element is a Notification object",
     "skip_last is modelled WITH the proposed fix fixes/C05_skip_last_none.patch; the pinned behaviour is the separate skipLastAsIsOp",
 ]
@@ -178,13 +177,12 @@ def gen_case(rng, vals=VALS, ops_list=OPS):
             case["key"] = gen_fn1(rng, alphabet, lambda: ({"raise": "key_err"} if rng.random() < 0.06 else rng.choice(keys)))
         if rng.random() < 0.4:
             dom = keys if case["key"] else alphabet
-            raising = name == "distinct_until_changed"
-            case["cmp"] = {"tab": [[{"t": [a, b]}, pred_result(rng, raising)] for a in dom for b in dom], "dflt": rng.random() < 0.5}
+            case["cmp"] = {"tab": [[{"t": [a, b]}, pred_result(rng, True)] for a in dom for b in dom], "dflt": rng.random() < 0.5}
     return case
 
 
 def cases(rng, tier):
-    for _ in range(fw.tier_scale(tier, 5000, 60000)):
+    for _ in range(fw.tier_scale(tier, 4000, 60000)):
         yield gen_case(rng)
 
 
@@ -618,7 +616,7 @@ LEVEL_TEXT = ("Lean theorems (unbounded, by induction): for every raw notificati
               "dematerialize_materialize; pipe_eq (composition through the real observer chain). Models mirror the handlers line by line and "
               "are tied to /repo by differential execution on generated hot timelines (timed output, subscriber-level and raw).")
 LEVEL_NOTE = ("All listed operators have theorems; starmap/pluck are stated as map instances (their argument adapters mapper(*t) / d[k] live in the "
-              "driver and are correspondence-only). distinct is proved for a total comparer (raising comparer = C09 defect, not generated). "
+              "driver and are correspondence-only). distinct is modelled with the C09 fix for a raising comparer (on_error instead of escaping) and map_indexed with the C04 fix (per-subscription counter, one more AutoDetachObserver in front of the observer). "
               "skip_last is modelled with the proposed fix (fixes/C05_skip_last_none.patch): on the unfixed tree the check reports VIOLATION; "
               "the as-is behaviour is kept as skipLastAsIsOp with decide'd counter-example theorems skip_last_asis_*. take(0)/empty() and "
               "start_with (concat+from_iterable) are modelled as 'emitted while subscribing'; the scheduler hop inside concat is not modelled "
